@@ -48,3 +48,25 @@ func VerifDecode(r Response) VerifDecoded {
 	}
 	return VerifDecoded{}
 }
+
+// VerifDecodeCopyUID expands a COPYUID response code the way a client reads it (RFC 4315): the n-th UID of the
+// source set corresponds to the n-th UID of the destination set, each set enumerated in the order it is written.
+func VerifDecodeCopyUID(it Item) (uidValidity imap.UID, src, dst []imap.UID, ok bool) {
+	c, is := it.(*itemCopyUID)
+	if !is || c == nil {
+		return 0, nil, nil, false
+	}
+	expand := func(s imap.SeqSet) []imap.UID {
+		var out []imap.UID
+		for _, v := range s {
+			for u := uint32(v.Begin); ; u++ {
+				out = append(out, imap.UID(u))
+				if u >= uint32(v.End) || len(out) > 64 {
+					break
+				}
+			}
+		}
+		return out
+	}
+	return c.uidValidity, expand(c.sourceSet), expand(c.destSet), true
+}
